@@ -56,7 +56,7 @@ FAULT_PROBES = {"runner_killed": "runner_killed", "output_file_torn": "output_to
                 "runners_overlapped": "runners_overlapped"}
 # a small share of the runs is repeated by fresh interpreters started with `python -O` (assert statements stripped)
 INTERP_VARIANTS = [{"flags": ["-O"], "runs": {"quick": 160, "thorough": 3000}, "what": "python -O (assert statements stripped from the code under test)"}]
-PROBES = ["program_cannot_be_started", "job_without_return_files", "hash_comparison_switched_off_by_caller", "cache_hit_valid", "cache_other_tag", "cache_failed_rc", "cache_success_flag_but_missing_file", "cache_unreadable", "destination_only_key",
+PROBES = ["prep_refuses_an_item", "program_cannot_be_started", "job_without_return_files", "hash_comparison_switched_off_by_caller", "cache_hit_valid", "cache_other_tag", "cache_failed_rc", "cache_success_flag_but_missing_file", "cache_unreadable", "destination_only_key",
           "item_already_in_destination", "vectorised_partly_cached", "runner_killed", "output_torn", "interrupt_prepare", "interrupt_submit",
           "interrupt_wait", "interrupt_finalise", "tag_changed_between_calls", "fail_after_writing_return_file", "closing_call_completed", "idempotent_call_checked", "runners_overlapped", "driver_with_envars"]
 
@@ -111,6 +111,10 @@ def gen_plan(r, tier, index):
             call["verbose"] = True
         if ci and r.random() < 0.1:
             call["lenient_hash"] = True
+        if ci and r.random() < 0.1:
+            # the job's prep() refuses one of the items under this call's arguments (an exception from user code): whether
+            # jobmap gives up or skips the item, nothing may be run or stored for it
+            call["prep_raises"] = [r.choice(names)]
         for e in all_eks:
             o = r.choice(OUTCOMES)
             if o != "ok":
@@ -131,6 +135,7 @@ def gen_plan(r, tier, index):
 
 # ---------------------------------------------------------------------------- the test driver
 _DRV = None
+_PREP_RAISES = [frozenset()]   # item names whose prep() raises in the call in progress (the item cannot be prepared under these arguments)
 _ENVARS_IN_INPUT = [True]   # whether the driver's prep() copies the job's envars into the JobInput (xtb-style preps do not)
 
 
@@ -144,6 +149,8 @@ def _driver():
         class FakeDriver(DriverBase):
             @Job(return_files=("out.txt",)).prep
             def calc(self, M, tag="t0"):
+                if M.name in _PREP_RAISES[0]:
+                    raise ValueError(f"injected: {M.name} cannot be prepared with {tag}")
                 conf = f"c{M._conf_id}" if hasattr(M, "_conf_id") else "-"
                 return JobInput(M.name, commands=[(f"{self.executable} {M.name} {tag} {conf}", "fake")],
                                 files={"in.xyz": M.dumps_xyz().encode()}, return_files=self.return_files,
@@ -167,6 +174,8 @@ def _driver():
             # a job that requests NO return files (the Job() default): its result is what the program printed
             @Job().prep
             def echo(self, M, tag="t0"):
+                if M.name in _PREP_RAISES[0]:
+                    raise ValueError(f"injected: {M.name} cannot be prepared with {tag}")
                 conf = f"c{M._conf_id}" if hasattr(M, "_conf_id") else "-"
                 return JobInput(M.name, commands=[(f"{self.executable} {M.name} {tag} {conf}", "fake")],
                                 files={"in.xyz": M.dumps_xyz().encode()},
@@ -296,7 +305,11 @@ def run_plan(plan, trace=False):
                             f.write(data[: max(1, len(data) // 2)])
                         cache[op["key"]] = "unreadable"
             # ---- the model's expectation for this call
-            todo = [nm for nm in sorted(all_items) if nm not in model_dest]
+            refused = set(call.get("prep_raises") or ())
+            _PREP_RAISES[0] = frozenset(refused)
+            todo = [nm for nm in sorted(all_items) if nm not in model_dest and nm not in refused]
+            if refused - set(model_dest):
+                res.stats["probe:prep_refuses_an_item"] += 1
             for nm in sorted(all_items):
                 if nm in model_dest:
                     res.stats["probe:item_already_in_destination"] += 1
@@ -400,11 +413,14 @@ def run_plan(plan, trace=False):
                 except Exception as e:  # noqa: BLE001 - jobmap must not raise for any of these histories
                     import traceback
 
-                    site = traceback.extract_tb(e.__traceback__)[-1]
-                    cause = "destination-only-key" if any(k not in all_items for k in model_dest) else "other"
-                    viol("jobmap-raises", f"{type(e).__name__}|cause={cause}",
-                         f"call #{ci} (tag {tag}) raised {e!r} at {site.filename.split('/')[-1]}:{site.lineno}; dest keys {sorted(model_dest)} source keys {sorted(all_items)}")
-                    break
+                    if refused and isinstance(e, ValueError) and str(e).startswith("injected:"):
+                        raised = e      # jobmap passes the refusal of prep() on to its caller: like an interrupted call
+                    else:
+                        site = traceback.extract_tb(e.__traceback__)[-1]
+                        cause = "destination-only-key" if any(k not in all_items for k in model_dest) else "other"
+                        viol("jobmap-raises", f"{type(e).__name__}|cause={cause}",
+                             f"call #{ci} (tag {tag}) raised {e!r} at {site.filename.split('/')[-1]}:{site.lineno}; dest keys {sorted(model_dest)} source keys {sorted(all_items)}")
+                        break
             res.evals += 1
             if exf.overlaps:
                 res.stats["probe:runners_overlapped"] += exf.overlaps
